@@ -107,6 +107,16 @@ Theorem C12_bounded_retries_partial :
 Proof. exact bounded_retries_v0_partial. Qed.
 Print Assumptions C12_bounded_retries_partial.
 
+(** The monitor that Run/C12.v evaluates on the REAL traces ([monitor_from]: clauses
+    1 and 2 at every snapshot, clause 3 at every reconcile, in boolean form) accepts
+    every history of the model under the repaired rule: the monitor demands nothing
+    that the theorems above do not give. *)
+Theorem C12_monitor_sound :
+  forall (s0 : store) (tr : list event), wf s0 -> brs s0 = [] ->
+  monitor_from s0 g_none (trace_of update_status_fixed s0 tr) = true.
+Proof. exact monitor_sound_fixed. Qed.
+Print Assumptions C12_monitor_sound.
+
 (** Non-vacuity: a concrete history meets the hypotheses of 1 (in-flight pod,
     charged 100 millis on node 1), of 2 (node deleted: request stale, deleted by the
     snapshot, pod pending) and of 3 (repaired rule, limit 3, four failing
